@@ -2,6 +2,7 @@ package wirew
 
 import (
 	"bytes"
+	"encoding/binary"
 	"fmt"
 	"runtime/debug"
 
@@ -10,7 +11,7 @@ import (
 	"go.uber.org/thriftrw/internal/zzsim/simio"
 	"go.uber.org/thriftrw/internal/zzsim/simrt"
 	"go.uber.org/thriftrw/internal/zzsim/world"
-	"go.uber.org/thriftrw/protocol/binary"
+	tbin "go.uber.org/thriftrw/protocol/binary"
 	"go.uber.org/thriftrw/wire"
 )
 
@@ -64,7 +65,7 @@ func raDecode(b []byte, t wire.Type, plan simio.Plan) outcome {
 	return guard(func() outcome {
 		ra := simio.NewReaderAt(b, plan)
 		ra.Budget = budgetFor(len(b))
-		r := binary.NewReader(ra)
+		r := tbin.NewReader(ra)
 		v, off, err := r.ReadValue(t, int64(plan.Start))
 		if err != nil {
 			return outcome{err: err.Error()}
@@ -82,7 +83,7 @@ func stDecode(b []byte, t wire.Type, plan simio.Plan) outcome {
 	return guard(func() outcome {
 		r, raw := simio.NewReader(b, plan)
 		raw.Budget = budgetFor(len(b))
-		sr := binary.NewStreamReader(r)
+		sr := tbin.NewStreamReader(r)
 		defer sr.Close()
 		v, err := streamDecode(sr, t, 0)
 		if err != nil {
@@ -97,7 +98,7 @@ func stSkip(b []byte, t wire.Type, plan simio.Plan) outcome {
 	return guard(func() outcome {
 		r, raw := simio.NewReader(b, plan)
 		raw.Budget = budgetFor(len(b))
-		sr := binary.NewStreamReader(r)
+		sr := tbin.NewStreamReader(r)
 		defer sr.Close()
 		if err := sr.Skip(t); err != nil {
 			return outcome{err: err.Error()}
@@ -107,6 +108,11 @@ func stSkip(b []byte, t wire.Type, plan simio.Plan) outcome {
 }
 
 var invalidTypes = []byte{0, 1, 5, 7, 9, 16, 0x7f, 0x80, 0xff}
+
+// bombCounts: declared counts at which count*width crosses 2^31 or 2^32 for the
+// fixed widths 1..16 (and their sums for maps).
+var bombCounts = []uint32{0x7fffffff, 0x7ffffffe, 0x40000000, 0x40000001, 0x3fffffff, 0x20000000, 0x20000001, 0x10000000, 0x10000001,
+	0x2aaaaaab, 0x1999999a, 0x15555556, 0x0ccccccd, 0x0e38e38f, 0x08000000, 0x08000001, 0x55555556, 0x33333334, 0x80000000, 0xffffffff}
 
 // genInput draws (type, bytes, marks).
 func genInput(o genOpts) (byte, []byte, string) {
@@ -119,10 +125,50 @@ func genInput2(o genOpts) (byte, []byte, string, string) {
 	class := "valid"
 	t := genType()
 	desc := ""
-	kind := simrt.ChoiceBias("in.kind", 4, 0.35)
+	kind := simrt.ChoiceBias("in.kind", 5, 0.35)
 	var b []byte
 	var marks ref.Marks
 	switch kind {
+	case 4:
+		// "count bomb": a struct of fixed-width fields followed by a container of
+		// fixed-width elements whose declared count sits at an arithmetic boundary
+		// (count*width near 2^31 / 2^32): exercises the skip fast paths' length
+		// computation; a wrapped product turns into a backwards seek or a bogus skip.
+		t = ref.TStruct
+		v := ref.Val{T: ref.TStruct}
+		nf := ch("bomb.fields", 4)
+		fixed := []byte{ref.TBool, ref.TI8, ref.TI16, ref.TI32, ref.TI64, ref.TDouble}
+		for i := 0; i < nf; i++ {
+			ft := fixed[ch("bomb.field-type", len(fixed))]
+			v.Fields = append(v.Fields, ref.Field{ID: int16(i + 1), V: genVal(ft, 3, o)})
+		}
+		var c ref.Val
+		switch ch("bomb.container", 3) {
+		case 0:
+			c = ref.Val{T: ref.TList, VT: fixed[ch("bomb.elem", len(fixed))]}
+		case 1:
+			c = ref.Val{T: ref.TSet, VT: fixed[ch("bomb.elem", len(fixed))]}
+		default:
+			c = ref.Val{T: ref.TMap, KT: fixed[ch("bomb.key", len(fixed))], VT: fixed[ch("bomb.elem", len(fixed))]}
+		}
+		ne := ch("bomb.items", 3)
+		for i := 0; i < ne; i++ {
+			if c.T == ref.TMap {
+				c.Items = append(c.Items, genVal(c.KT, 3, o))
+			}
+			c.Items = append(c.Items, genVal(c.VT, 3, o))
+		}
+		if ch("bomb.nested", 3) == 0 {
+			c = ref.Struct(ref.F(1, c))
+		}
+		v.Fields = append(v.Fields, ref.Field{ID: int16(nf + 1), V: c})
+		b = ref.EncodeMarked(nil, v, &marks)
+		if len(marks.Lens) > 0 {
+			i := marks.Lens[len(marks.Lens)-1]
+			binary.BigEndian.PutUint32(b[i:], bombCounts[ch("bomb.count", len(bombCounts))])
+		}
+		class = "mutated"
+		desc = "count bomb"
 	case 0, 1, 2:
 		vt := t
 		if kind == 2 && simrt.Flip("in.other-type", 0.3) {
@@ -210,7 +256,7 @@ func RunC03(cfg simrt.Config, o world.Opts) *world.Result {
 			}
 			w := simio.NewWriter(-1)
 			lib := guard(func() outcome {
-				if err := binary.Default.Encode(refwire.ToWire(base.val), w); err != nil {
+				if err := tbin.Default.Encode(refwire.ToWire(base.val), w); err != nil {
 					return outcome{err: err.Error()}
 				}
 				return outcome{ok: true}
